@@ -36,7 +36,10 @@ var decValsFine = []Leaf{{Text: "0.001", Kind: "float", Flt: 0.001}, {Text: "2.6
 
 var strVals = []Leaf{{Text: "foo", Kind: "str", Str: "foo"}, {Text: "bar", Kind: "str", Str: "bar"}, {Text: `"a b"`, Kind: "str", Str: "a b"},
 	{Text: `"it's"`, Kind: "str", Str: "it's"}, {Text: "zed", Kind: "str", Str: "zed"}, {Text: `"Ünï"`, Kind: "str", Str: "Ünï"}, {Text: "m", Kind: "str", Str: "m"},
-	{Text: `"x;--"`, Kind: "str", Str: "x;--"}}
+	{Text: `"x;--"`, Kind: "str", Str: "x;--"},
+	// backslash sequences inside quotes are verbatim text; quoted digits are strings, not numbers
+	{Text: `"C:\temp\new"`, Kind: "str", Str: `C:\temp\new`}, {Text: `"a\\b"`, Kind: "str", Str: `a\\b`}, {Text: `"\u00e9"`, Kind: "str", Str: `\u00e9`},
+	{Text: `"007"`, Kind: "str", Str: "007"}, {Text: `"9"`, Kind: "str", Str: "9"}, {Text: `"1.5"`, Kind: "str", Str: "1.5"}, {Text: `"+3"`, Kind: "str", Str: "+3"}}
 
 var strValsComma = []Leaf{{Text: `"x,y"`, Kind: "str", Str: "x,y"}}
 
@@ -166,20 +169,14 @@ func (g *fgen) leaf() *Ft {
 	case 7:
 		// value list f:(v1 OR v2 OR ...)
 		n := 2 + r.Intn(3)
-		var e *Ft
-		for i := 0; i < n; i++ {
-			v := g.strVal()
+		vals := make([]Leaf, n)
+		for i := range vals {
+			vals[i] = g.strVal()
 			if f.Num {
-				v = g.numVal()
-			}
-			l := &Ft{K: "leaf", Leaf: v}
-			if e == nil {
-				e = l
-			} else {
-				e = &Ft{K: "or", L: e, R: l}
+				vals[i] = g.numVal()
 			}
 		}
-		return &Ft{K: "eqGroup", F: f.L, E: e}
+		return &Ft{K: "eqGroup", F: f.L, E: OrChain(r, vals)}
 	default:
 		// wildcard pattern on a string field
 		for f.Num {
